@@ -1,16 +1,16 @@
 import broker_common as bc
 import C10
 MANIFEST = {
- 'text': 'Theorems C01_invariant_step, C01_cluster_view, C01_proxy_view about Model/Broker.v: for EVERY store reachable by any sequence of the 22 broker '
-         'operations (all oracle choices the allocator model accepts, non-panicking steps) and every migration limit, the served cluster view and every '
+ 'text': 'Theorems C01_any_history_cluster_view / _proxy_view (UNCONDITIONAL: every finite sequence of the 22 broker operations from the empty store, all oracle choices '
+         'the allocator model accepts, Restore of any such store), C01_no_operation_panics (no operation panics on such a store: allocator, planners, failover, views), '
+         'C01_invariant_step, C01_cluster_view, C01_proxy_view about Model/Broker.v: for every such store and every migration limit, the served cluster view and every '
          'per-proxy view own each of the 16384 slots exactly once among Stable/Migrating ranges of masters, replicas own nothing, and each Migrating entry has exactly '
          'one Importing twin (equal ranges, epoch, addresses) on the destination master. Proved through a store invariant (part_inv: counting semantics of ranges, '
          'twin relation, master count <= 16384) preserved by every operation incl. the two slot planners, commit, failover, limit_migration. The model is tied to '
          'the real MetaStore on every run: canonical store text and all views (limits 0,1,2) compared after every operation of generated histories, and an '
          'independent Rust monitor evaluates the partition property on the real views.',
  'note': 'Coq kernel; all theorems closed under the global context; extraction (ExtrOcamlBasic) + OCaml driver; harness/broker + hook H1; oracle for the '
-         'hash-order dependent allocator choices is validated by the model. Panicking steps are excluded from reachability (panic freedom of the planners needs the '
-         'balance precondition and is not proved); ExternalHttpStorage and the HTTP layer are outside.',
+         'hash-order dependent allocator choices is validated by the model. ExternalHttpStorage and the HTTP layer are outside.',
  'technique': 'Coq proof over a hand-written model + differential correspondence check against the real code',
 }
 def run(chk): bc.standard_run(chk, 'C01', extra_histories=[C10.big_scale_down()] if chk.tier == 'thorough' else [])
